@@ -6,6 +6,7 @@ import (
 	"math/rand"
 	"os"
 	"path/filepath"
+	"strings"
 	"time"
 
 	"github.com/RoaringBitmap/roaring"
@@ -223,6 +224,47 @@ func runC05(r *vf.Run) {
 	cases = append(cases, c5{id: "u70000", crafted: true, ds: func(rng *rand.Rand) *gen.Dataset {
 		// more than 65535 distinct values in one column
 		return gen.MakeDataset(rng, "u70000", gen.DatasetOpts{Rows: 70000, MaxCols: 1, Shapes: []gen.ValueShape{gen.ShapeUnique}, NoMissing: true})
+	}})
+	cases = append(cases, c5{id: "long-shared-prefixes", crafted: true, ds: func(rng *rand.Rand) *gen.Dataset {
+		// values of one column that share 200 .. 70000 leading bytes with their neighbours in sort order, and column names
+		// doing the same: whatever stores strings relative to each other meets its length limits here
+		d := &gen.Dataset{ID: "long-shared-prefixes"}
+		for i, n := range []int{200, 254, 255, 256, 257, 300, 1000, 4096, 65535, 65536, 70000} {
+			p := strings.Repeat(string(rune('a'+i)), n)
+			for k := 0; k < 3; k++ {
+				row := oracle.Row{"v": p + fmt.Sprintf("-%d", k), "w": fmt.Sprint(k)}
+				if n <= 1000 {
+					row[strings.Repeat("c", n)+fmt.Sprint(k%2)] = "x"
+				}
+				d.Rows = append(d.Rows, row, oracle.Row{"v": p + fmt.Sprintf("-%d", k)})
+			}
+			d.Rows = append(d.Rows, oracle.Row{"v": p})
+		}
+		d.Index()
+		return d
+	}})
+	cases = append(cases, c5{id: "exact-row-counts", crafted: true, ds: func(rng *rand.Rand) *gen.Dataset {
+		// values whose row counts are exact multiples of 4096 and 65536 (and one more / one less), interleaved with rare ones
+		d := &gen.Dataset{ID: "exact-row-counts"}
+		add := func(col, val string, n int) {
+			for i := 0; i < n; i++ {
+				row := oracle.Row{col: val}
+				if i%1000 == 7 {
+					row["rare"] = fmt.Sprintf("%s-%d", val, i)
+				}
+				d.Rows = append(d.Rows, row)
+			}
+		}
+		add("h", "n4095", 4095)
+		add("h", "n4096", 4096)
+		add("h", "n4097", 4097)
+		add("h", "n8192", 8192)
+		add("g", "n65536", 65536)
+		add("g", "n12288", 12288)
+		add("h", "n1", 1)
+		rng.Shuffle(len(d.Rows), func(i, j int) { d.Rows[i], d.Rows[j] = d.Rows[j], d.Rows[i] })
+		d.Index()
+		return d
 	}})
 	cases = append(cases, c5{id: "concat", crafted: true, ds: func(rng *rand.Rand) *gen.Dataset {
 		return gen.MakeDataset(rng, "concat", gen.DatasetOpts{Rows: 400, Concat: true, WithUnique: true})
